@@ -587,4 +587,24 @@ def sigRuleFor (tron : Bool) : SigRule :=
   (sigRules.find? (fun r => r.func == (if tron then "TronAddressFromSignature" else "EthAddressFromSignature"))).getD
     ⟨"", "", [], "", "", "", 0, [], 0⟩
 
+/-! ## Part 4 — the bytes of the store keys -/
+
+/-- the values a key function is given -/
+structure KeyEnv where
+  token : List Nat := []    -- bytes of the token contract text
+  nonce : Nat := 0
+  oracle : List Nat := []   -- bytes of the oracle address
+  deriving DecidableEq, Repr
+
+def encPart (env : KeyEnv) (p : String × String) : List Nat :=
+  if p.1 == "const" then (keyPrefixes.lookup p.2).getD []
+  else if p.1 == "text" then env.token
+  else if p.1 == "be8" then toBE 8 env.nonce
+  else if p.1 == "addr" then env.oracle
+  else []
+
+/-- the key bytes a key function builds (layout regenerated from its nested `append`s) -/
+def encKey (fn : String) (env : KeyEnv) : List Nat :=
+  ((keyParts.lookup fn).getD []).flatMap (encPart env)
+
 end FxVerif.Model.C12
